@@ -30,9 +30,12 @@ cd /; git -C /repo worktree remove --force $W
 git -C /repo apply $D/patch.diff || { echo "patch does not apply to /repo"; exit 3; }
 cd /verif
 caught=""
-for p in $(python3 -c "import json;print(' '.join(sorted(json.load(open('/verif/tools/claims.json')))))"); do
-  out=$(GOVC_NOEVIDENCE=1 timeout 900 ./bin/govc check -p $p -tier quick 2>&1); code=$?
-  if [ $code -ne 0 ]; then caught="$caught $p(exit=$code)"; echo "$out" | grep "^FAILED-OBLIGATION\|^UNDECIDED\|ERROR" | cut -c1-160 | sed "s/^/   [$p] /" | head -6; fi
+T=$(mktemp -d /tmp/trymut.XXXX)
+python3 -c "import json;print('\n'.join(sorted(json.load(open('/verif/tools/claims.json')))))" | xargs -P 4 -I{} sh -c "GOVC_NOEVIDENCE=1 timeout 900 ./bin/govc check -p {} -tier quick > $T/{}.out 2>&1; echo \$? > $T/{}.code"
+for f in $(ls $T/*.code | sort); do
+  p=$(basename $f .code); code=$(cat $f)
+  if [ "$code" != 0 ]; then caught="$caught $p(exit=$code)"; grep "^FAILED-OBLIGATION\|^UNDECIDED\|ERROR" $T/$p.out | cut -c1-160 | sed "s/^/   [$p] /" | head -6; fi
 done
+rm -rf $T
 git -C /repo checkout -- .
 echo "RESULT $P/$M caught_by:${caught:- NONE}"
